@@ -7,7 +7,7 @@ import copy
 
 from vf import dtml, gen, harness
 from vf.engine import Acc, hyp_run, shrink_failures
-from vf.values import World, build_ns
+from vf.values import Mutator, World, build_ns
 
 ID = 'C08'
 RULE = ('Hypothesis-generated programs (in / with / let / if / unless / try '
@@ -17,7 +17,8 @@ RULE = ('Hypothesis-generated programs (in / with / let / if / unless / try '
         'DTML can invoke (recorder callables, __getattr__ of clients, '
         '__getitem__ / __len__ / __iter__ of sequences, mapping reads, '
         '__bool__, __str__, sort-key comparison, fmt= methods, absolute_url, '
-        'tree branch / id methods, __render_with_namespace__) shares one '
+        'tree branch / id methods, __render_with_namespace__, callables '
+        'that add / remove keys of a mapping on the stack) shares one '
         'invocation counter.  Run 0 counts N; runs k = 1..N raise VfA (and, '
         'for a sample, perform dtml-return) at invocation k; pairs (i < j) '
         'are enumerated for N <= 24 and strided beyond.  The template is '
@@ -104,6 +105,9 @@ def run_once(src, syntax, ns_spec, level, fault_at=None, kind='raise',
     world = World(return_exc=DTReturn, fault_at=fault_at, fault_kind=kind,
                   fault2_at=fault2_at)
     ns = build_ns(ns_spec, world, 'impl')
+    for v in ns.values():
+        if isinstance(v, Mutator):
+            v.target = ns
     t = harness.make_template(src, syntax)
     md = TemplateDict()
     md._push(ns)
